@@ -103,6 +103,9 @@ func mutateMsg(r *Rand, m *pgwire.FMsg, limit int) {
 		}
 	case 6:
 		*m = pgwire.FMsg{K: "typed", T: byte(r.Intn(256)), Data: r.Bytes(r.Intn(20))}
+		if r.Chance(1, 3) {
+			*m = oddTarget(r)
+		}
 	case 7:
 		m.Pad = int64(r.PickInt(1, limit, 1<<20))
 		m.DeclLen = u32p(uint32(r.PickInt(1<<30, 1<<31-1, 0xfffffff0)))
